@@ -1077,6 +1077,29 @@ struct Gen {
             p.pts = q;
             rotate_reverse(p.pts);
             p.shape = vertical ? "trapezoid-v" : "trapezoid-h";
+        } else if (sel < 56) {
+            // a disc with a flat cut (half disc ... four fifths of a disc): every vertex lies on one circle and is close to its
+            // neighbours, except for ONE long chord - which circle detection has to notice wherever it sits in the vertex list
+            double r = (double)g.range(150, 1500);
+            double span = M_PI * (1.0 + 0.8 * (double)g.below(1001) / 1000.0);
+            double tol = 1.0;
+            int n0 = (int)ceil(2 * M_PI / (2 * acos(1 - tol / r))) + 4;
+            int n = (int)ceil(1.3 * n0);
+            double a0 = 2 * M_PI * (double)g.below(1000) / 1000.0;
+            std::vector<P2> q;
+            for (int i = 0; i <= n; i++) {
+                double t = a0 + span * i / n;
+                P2 v((int64_t)llround(x + r * cos(t)), (int64_t)llround(y + r * sin(t)));
+                if (q.empty() || q.back() != v) q.push_back(v);
+            }
+            if (q.size() > 8 && q.front() != q.back()) {
+                p.pts = q;
+                if (g.coin()) rotate_reverse(p.pts);   // otherwise the chord is the closing edge last -> first
+                p.shape = "disc-segment";
+            } else {
+                p.pts = {{x, y}, {x + 40, y}, {x + 40, y + 30}};
+                p.shape = "triangle";
+            }
         } else if (sel < 60) {
             p.circle = true;
             p.cx = x;
